@@ -132,6 +132,8 @@ func c15model(c *Ctx, ruleCount, ruleType, ruleShape string) {
 	add("member added", mls(A, B), mls(A1, B1, C1), false)
 	add("member removed", mls(A, B, Cc), mls(A1, C1), false)
 	add("duplicate member against a different one", mls(A, B, A), mls(Cc, B1, A1), false)
+	add("duplicate member against a different one, its match listed first", mls(A, B, A), mls(A1, B1, C1), false)
+	add("duplicate member against a different one, its match in the middle", mls(A, A, B), mls(C1, A1, B1), false)
 	add("duplicate member, reordered", mls(A, B, A), mls(A1, A1, B1), true)
 	// --- polygon: rings reordered, closed rings rotated
 	sq := func(d int64, base int, rot int) []vtx { // closed ring of 4 vertices starting at base, rotated
@@ -172,6 +174,8 @@ func c15model(c *Ctx, ruleCount, ruleType, ruleShape string) {
 	add("ring added", poly(sq(0, 1, 0)), poly(sq(1, 1, 0), sq(1, 10, 0)), false)
 	add("ring removed", poly(sq(0, 1, 0), sq(0, 10, 0)), poly(sq(1, 10, 0)), false)
 	add("duplicate ring against a different one", poly(sq(0, 1, 0), sq(0, 10, 0), sq(0, 1, 0)), poly(sq(1, 20, 0), sq(1, 10, 0), sq(1, 1, 0)), false)
+	add("duplicate ring against a different one, its match listed first", poly(sq(0, 1, 0), sq(0, 10, 0), sq(0, 1, 0)), poly(sq(1, 1, 0), sq(1, 10, 0), sq(1, 20, 0)), false)
+	add("duplicate ring against a different one, its match in the middle", poly(sq(0, 1, 0), sq(0, 1, 0), sq(0, 10, 0)), poly(sq(1, 20, 0), sq(1, 1, 0), sq(1, 10, 0)), false)
 	// --- multi polygon
 	mpoly := func(ps ...[][]vtx) simGeom {
 		var vals []oval
@@ -186,6 +190,8 @@ func c15model(c *Ctx, ruleCount, ruleType, ruleShape string) {
 	add("member added", mpoly(P(0, 1)), mpoly(P(1, 1), P(1, 10)), false)
 	add("member removed", mpoly(P(0, 1), P(0, 10)), mpoly(P(1, 10)), false)
 	add("duplicate member against a different one", mpoly(P(0, 1), P(0, 10), P(0, 1)), mpoly(P(1, 20), P(1, 10), P(1, 1)), false)
+	add("duplicate member against a different one, its match listed first", mpoly(P(0, 1), P(0, 10), P(0, 1)), mpoly(P(1, 1), P(1, 10), P(1, 20)), false)
+	add("duplicate member against a different one, its match in the middle", mpoly(P(0, 1), P(0, 1), P(0, 10)), mpoly(P(1, 20), P(1, 1), P(1, 10)), false)
 	add("empty polygon member", mpoly(P(0, 1), [][]vtx{}), mpoly([][]vtx{}, P(1, 1)), true)
 	// --- bounds
 	box := func(d int64) simGeom {
@@ -212,6 +218,8 @@ func c15model(c *Ctx, ruleCount, ruleType, ruleShape string) {
 		add("member removed", gc(pA, lB, pgC), gc(pA1, pgC1), false)
 		add("member of another type", gc(pA, lB), gc(pA1, G("MultiPoint", b.pts(b.mpT, ids(1, 3, 4)))), false)
 		add("duplicate member against a different one", gc(pA, lB, pA), gc(pgC1, lB1, pA1), false)
+		add("duplicate member against a different one, its match listed first", gc(pA, lB, pA), gc(pA1, lB1, pgC1), false)
+		add("duplicate member against a different one, its match in the middle", gc(pA, pA, lB), gc(pgC1, pA1, lB1), false)
 		add("nested collections", gc(gc(pA, lB), pgC), gc(pgC1, gc(lB1, pA1)), true)
 	}
 	// --- different types: every ordered pair of distinct types with otherwise equal data
